@@ -1347,6 +1347,18 @@ def getslice(ex, st, ref, lo, hi, step):
             else:
                 yield from getslice(ex, st1, w, lo, hi, step)
         return
+    if isinstance(v, SSeq) and all(b is None or (isinstance(b, int) and not isinstance(b, bool)) for b in (lo, hi)):
+        # a slice of a symbolic sequence with literal bounds: again a symbolic sequence (shifted view of the same items)
+        n = v.n
+        start = 0 if lo is None else (z3.If(n + lo > 0, n + lo, 0) if lo < 0 else z3.If(n < lo, n, z3.IntVal(lo)))
+        stop = n if hi is None else (z3.If(n + hi > 0, n + hi, 0) if hi < 0 else z3.If(n < hi, n, z3.IntVal(hi)))
+        start, stop = (z3.IntVal(start) if isinstance(start, int) else start), stop
+        length = z3.If(stop - start > 0, stop - start, 0)
+        j = z3.Int(fresh_name("j"))
+        r = SSeq(v.sort, z3.simplify(length), z3.Lambda([j], v.arr[j + start]))
+        r.pytype = getattr(v, "pytype", "list")
+        yield st, r
+        return
     if isinstance(v, Obj) and v.tuple_fields is not None:
         v = tuple(v.fields[k] for k in v.tuple_fields)
     if isinstance(v, (PList, tuple, EagerGen)):
